@@ -351,18 +351,19 @@ func (c *oCache) TryRemove(id string) (ok bool, err error) {
 
 	closed, err := e.value.TryClose(c.ttl)
 	if err != nil {
+		// like GC: the entry must leave the closing state whatever TryClose
+		// reports, otherwise everybody waiting for it is blocked forever
 		c.log.With("object_id", e.id).Warnf("try remove err: %v", err)
-		return closed, err
 	}
 
 	if !closed {
 		verifGate("gate:setactive.lock", e.id)
 		e.setActive(true)
-		return false, nil
+		return false, err
 	}
 
 	c.closeAndDelete(e)
-	return true, nil
+	return true, err
 }
 
 func (c *oCache) DoLockedIfNotExists(id string, action func() error) error {
